@@ -31,6 +31,8 @@ def gen_floats(dist, rng, n):
         return rng.uniform(1., 400., size=n)
     if dist == 'moderate':
         return rng.choice([-1., 1.], size=n) * 10. ** rng.uniform(-3, 3, size=n)
+    if dist == 'tiny':                                # span far below any numeric reference's precision
+        return 10. ** rng.integers(-200, -25) * rng.uniform(1., 7., size=n)
     if dist == 'withzeros':
         a = rng.normal(size=n)
         a[rng.random(n) < 0.3] = 0.
